@@ -547,7 +547,7 @@ func TestVerifC13Crash(t *testing.T) {
 		sizes := c13Partition(rng, n)
 		lo, ok := 0, true
 		for _, s := range sizes {
-			if ok, _ = c13CheckBatch(r, "E:family-"+famName, ref, env, lo, lo+s); !ok {
+			if ok, _ = c13CheckBatch(r, "K:family-"+famName, ref, env, lo, lo+s); !ok {
 				break
 			}
 			lo += s
